@@ -573,6 +573,29 @@ static void setup_event_argument(PyObject *pDict, struct script_context *sc_ctx)
 	Py_XDECREF(args);
 }
 
+/*
+ * An exception raised by a callback must not stay pending: the next string
+ * conversion (insert_dict_string etc.) would take it for its own failure and
+ * pass "<invalid value>" to the following callback.  It is printed with -v
+ * (once for entry/exit/event callbacks), and cleared in any case.
+ */
+static void python_callback_error(const char *name, bool once)
+{
+	if (!__PyErr_Occurred())
+		return;
+
+	if (debug && !(once && python_error_reported)) {
+		pr_dbg("%s failed:\n", name);
+		__PyErr_Print();
+
+		if (once)
+			python_error_reported = true;
+	}
+	else {
+		__PyErr_Clear();
+	}
+}
+
 int python_uftrace_begin(struct script_info *info)
 {
 	PyObject *dict;
@@ -603,12 +626,7 @@ int python_uftrace_begin(struct script_info *info)
 	__PyTuple_SetItem(ctx, 0, dict);
 	__PyObject_CallObject(pFuncBegin, ctx);
 
-	if (debug) {
-		if (__PyErr_Occurred()) {
-			pr_dbg("uftrace_begin failed:\n");
-			__PyErr_Print();
-		}
-	}
+	python_callback_error("uftrace_begin", false);
 
 	Py_XDECREF(ctx);
 	return 0;
@@ -639,14 +657,7 @@ int python_uftrace_entry(struct script_context *sc_ctx)
 
 	/* Call python function "uftrace_entry". */
 	__PyObject_CallObject(pFuncEntry, pythonContext);
-	if (debug) {
-		if (__PyErr_Occurred() && !python_error_reported) {
-			pr_dbg("uftrace_entry failed:\n");
-			__PyErr_Print();
-
-			python_error_reported = true;
-		}
-	}
+	python_callback_error("uftrace_entry", true);
 
 	/* Free PyTuple. */
 	Py_XDECREF(pythonContext);
@@ -684,14 +695,7 @@ int python_uftrace_exit(struct script_context *sc_ctx)
 
 	/* Call python function "uftrace_exit". */
 	__PyObject_CallObject(pFuncExit, pythonContext);
-	if (debug) {
-		if (__PyErr_Occurred() && !python_error_reported) {
-			pr_dbg("uftrace_exit failed:\n");
-			__PyErr_Print();
-
-			python_error_reported = true;
-		}
-	}
+	python_callback_error("uftrace_exit", true);
 
 	/* Free PyTuple. */
 	Py_XDECREF(pythonContext);
@@ -724,14 +728,7 @@ int python_uftrace_event(struct script_context *sc_ctx)
 
 	/* Call python function "uftrace_exit". */
 	__PyObject_CallObject(pFuncEvent, pythonContext);
-	if (debug) {
-		if (__PyErr_Occurred() && !python_error_reported) {
-			pr_dbg("uftrace_event failed:\n");
-			__PyErr_Print();
-
-			python_error_reported = true;
-		}
-	}
+	python_callback_error("uftrace_event", true);
 
 	/* Free PyTuple. */
 	Py_XDECREF(pythonContext);
@@ -751,12 +748,7 @@ int python_uftrace_end(void)
 	/* Call python function "uftrace_end". */
 	__PyObject_CallObject(pFuncEnd, NULL);
 
-	if (debug) {
-		if (__PyErr_Occurred()) {
-			pr_dbg("uftrace_end failed:\n");
-			__PyErr_Print();
-		}
-	}
+	python_callback_error("uftrace_end", false);
 
 	pthread_mutex_unlock(&python_interpreter_lock);
 
